@@ -103,8 +103,14 @@ pub struct Case {
     /// Some: start from a fabricated pre-0.14 storage image with these allowances,
     /// run `migrate`, then continue with `ops`
     pub legacy: Option<Vec<LegacyAllowance>>,
+    /// which pre-0.14 version string the legacy image carries (index into LEGACY_VERSIONS)
+    #[serde(default)]
+    pub legacy_version: u8,
     pub ops: Vec<Op>,
 }
+
+/// cw2 version strings of pre-0.14 releases (the storage layout of token_info / balance / allowance is the same)
+pub const LEGACY_VERSIONS: [&str; 8] = ["0.13.4", "0.13.0", "0.12.1", "0.10.3", "0.9.1", "0.6.2", "0.2.0", "0.13.9"];
 
 // ---------------------------------------------------------------- strategies
 
@@ -246,7 +252,7 @@ pub fn case_strategy(prop: &str, tier: Tier) -> BoxedStrategy<Case> {
     } else {
         Just(None).boxed()
     };
-    (init_strategy(prop), legacy, ops).prop_map(|(init, legacy, ops)| Case { init, legacy, ops }).boxed()
+    (init_strategy(prop), legacy, 0u8..LEGACY_VERSIONS.len() as u8, ops).prop_map(|(init, legacy, legacy_version, ops)| Case { init, legacy, legacy_version, ops }).boxed()
 }
 
 // ---------------------------------------------------------------- frozen legacy (0.13) layout
@@ -550,7 +556,7 @@ pub fn run_case(prop: &str, case: &Case, ctx: &mut CaseCtx) -> Result<(), Violat
         L_TOKEN_INFO
             .save(store, &LegacyTokenInfo { name: "Verif Token".into(), symbol: "VRF".into(), decimals: 6, total_supply: Uint128::new(total), mint })
             .unwrap();
-        L_VERSION.save(store, &LegacyContractVersion { contract: "crates.io:cw20-base".into(), version: "0.13.4".into() }).unwrap();
+        L_VERSION.save(store, &LegacyContractVersion { contract: "crates.io:cw20-base".into(), version: LEGACY_VERSIONS[case.legacy_version as usize % LEGACY_VERSIONS.len()].into() }).unwrap();
         let mut last: BTreeMap<(usize, usize), u128> = BTreeMap::new();
         for la in legacy {
             let (o, s) = (la.owner as usize % N_ACTORS as usize, la.spender as usize % N_ACTORS as usize);
@@ -568,7 +574,7 @@ pub fn run_case(prop: &str, case: &Case, ctx: &mut CaseCtx) -> Result<(), Violat
         let r = w.d.tx(|deps, env| cw20_base::contract::migrate(deps, env, MigrateMsg {}));
         if let Err(e) = r {
             if prop == "C19" {
-                return Err(v(prop, "migrate-failed", format!("migrate from a 0.13.4 storage image failed: {e}")));
+                return Err(v(prop, "migrate-failed", format!("migrate from a pre-0.14 storage image failed: {e}")));
             }
             ctx.count("legacy_migrate_failed");
             return Ok(());
@@ -1313,6 +1319,7 @@ pub fn decode_case(prop: &str, u: &mut arbitrary::Unstructured) -> Case {
     } else {
         None
     };
+    let legacy_version = arb_below(u, LEGACY_VERSIONS.len()) as u8;
     let n_ops = arb_below(u, 48);
     let mut ops = vec![];
     for _ in 0..n_ops {
@@ -1331,5 +1338,5 @@ pub fn decode_case(prop: &str, u: &mut arbitrary::Unstructured) -> Case {
         };
         ops.push(op);
     }
-    Case { init: Init { accounts, mint }, legacy, ops }
+    Case { init: Init { accounts, mint }, legacy, legacy_version, ops }
 }
